@@ -82,6 +82,7 @@ def perturb_strategy(ctx):
         st.fixed_dictionaries({"kind": st.just("order"), "decls": order_strategy()}),
         # static objects with generated initialisers (C07's generator): string patching, designators, unknown-size arrays
         st.fixed_dictionaries({"kind": st.just("inits"), "case": _init_cases()}),
+        st.fixed_dictionaries({"kind": st.just("inits"), "case": _init_cases()}),
         # raw token texts of every class with splices and odd punctuator runs (C13's generator): the lexer's pushback and
         # lookahead paths are where the input channel (pipe, file, path argument) can make a difference
         st.fixed_dictionaries({"kind": st.just("text"), "text": _token_texts(), "wrap": st.sampled_from(["plain", "stringize", "lines"])}),
